@@ -154,6 +154,9 @@ func (fr *frame) havocLoop(st *PState, b *ssa.BasicBlock, ord int) {
 				if eff.trace {
 					traceMod = true
 				}
+				for _, gn := range eff.ghosts {
+					st.SetGhost(gn, st.Fresh("gh_loop_"+sanitize(gn), SInt))
+				}
 				for _, ht := range eff.heapTypes {
 					name, h := st.Heap(ht)
 					st.SetHeap(name, st.Fresh(name+"_loop", h.Sort))
@@ -286,6 +289,7 @@ type callEff struct {
 	state   bool       // may write the chain state (not the heaps, not the trace)
 	trace   bool
 	heapTypes []types.Type // may write objects of these pointee types
+	ghosts    []string     // ghost counters that may change
 }
 
 var pureInvokes = map[string]bool{"Valid": true, "Key": true, "Value": true, "Close": true, "Error": true, "String": true, "Get": true, "Has": true,
@@ -383,6 +387,8 @@ func (fr *frame) contractEffects(ct *Contract, sig *types.Signature, f *ssa.Func
 		case m == "":
 		case m == "trace":
 			eff.trace = true
+		case strings.HasPrefix(m, "ghost(") && strings.HasSuffix(m, ")"):
+			eff.ghosts = append(eff.ghosts, strings.TrimSpace(m[6:len(m)-1]))
 		case strings.HasPrefix(m, "*"):
 			name := strings.TrimSpace(m[1:])
 			found := false
@@ -410,6 +416,9 @@ func (fr *frame) contractEffects(ct *Contract, sig *types.Signature, f *ssa.Func
 	}
 	if len(ct.Emits) > 0 {
 		eff.trace = true
+	}
+	for _, b := range ct.Bumps {
+		eff.ghosts = append(eff.ghosts, b.Name)
 	}
 	return eff
 }
@@ -440,6 +449,7 @@ func (fr *frame) bodyEffects(st *PState, f *ssa.Function, depth int) callEff {
 				eff.state = eff.state || e.state
 				eff.trace = eff.trace || e.trace
 				eff.heapTypes = append(eff.heapTypes, e.heapTypes...)
+				eff.ghosts = append(eff.ghosts, e.ghosts...)
 			}
 		}
 	}
